@@ -797,4 +797,28 @@ def r7(ctx):
     ctx.ok("C18.R7", f"no method of the contrast classes assigns to self outside construction ({n} methods)", "formulaic/transforms/contrasts.py")
 
 
-RULES = [("C18.R1", r1), ("C18.R2", r2), ("C18.R3", r3), ("C18.R4", r4), ("C18.R5", r5), ("C18.R6", r6), ("C18.R7", r7)]
+
+def r8(ctx):
+    """A materializer can be asked for several matrices: whatever get_model_matrix caches depends on the spec being built, so every
+    cache attribute of the materializer is cleared before the factors of a call are evaluated."""
+    P = ctx.project
+    init = P.func(MAT + ".__init__")
+    caches = [norm(st.target if isinstance(st, ast.AnnAssign) else st.targets[0]).replace("self.", "") for st in walk_no_nested(init.node)
+              if isinstance(st, (ast.Assign, ast.AnnAssign)) and norm(st.target if isinstance(st, ast.AnnAssign) else st.targets[0]).startswith("self.")
+              and st.value is not None and norm(st.value) == "{}"]
+    ctx.floor("C18.R8", len(caches), 2, "cache attributes of the materializer")
+    g = P.func(MAT + ".get_model_matrix")
+    cfg = CFG(g.node)
+    evals = [st for st in cfg.stmts() if any(isinstance(c.func, ast.Attribute) and c.func.attr == "_evaluate_factor" for c in header_calls(st))]
+    loop = P.parent(evals[0]) if evals else None
+    for cname in caches:
+        ctx.look()
+        clears = [st for st in cfg.stmts() if isinstance(st, ast.Expr) and norm(st.value) == f"self.{cname}.clear()"]
+        rebinds = [st for st in cfg.stmts() if isinstance(st, (ast.Assign, ast.AnnAssign)) and norm(st.targets[0] if isinstance(st, ast.Assign) else st.target) == f"self.{cname}" and norm(st.value) == "{}"]
+        ok = bool(clears + rebinds) and loop is not None and all(cfg.dominates(c_, loop) for c_ in clears + rebinds)
+        ctx.check(ok, "C18.R8", f"get_model_matrix starts from an empty `{cname}`", g.where, ctx.construct(g, text=f"clear {cname}"),
+                  f"`self.{cname}` is filled while building but never reset: a materializer that built one spec and is then given another (fitted on other data) returns "
+                  f"the values cached by the first call")
+
+
+RULES = [("C18.R1", r1), ("C18.R2", r2), ("C18.R3", r3), ("C18.R4", r4), ("C18.R5", r5), ("C18.R6", r6), ("C18.R7", r7), ("C18.R8", r8)]
